@@ -515,7 +515,7 @@ def extra_campaign(tier, seed, stats, known_open):
     findings = os.path.join(work, "findings")
     cmd = [sys.executable, "-W", "ignore", script, findings, corpus, f"-runs={runs}", f"-seed={max(1, int(seed))}", "-max_len=2600", "-timeout=20",
            f"-max_total_time={secs}", "-print_final_stats=1", "-verbosity=0"]
-    p = subprocess.run(cmd, stdout=subprocess.PIPE, stderr=subprocess.STDOUT, text=True, env=dict(os.environ, PYTHONPATH=os.path.join(verif, ".deps")))
+    p = subprocess.run(cmd, stdout=subprocess.PIPE, stderr=subprocess.STDOUT, text=True, env=dict(os.environ, PYTHONPATH=os.path.join(verif, ".deps"), TMPDIR=work))  # the target's scratch directory lives (and dies) inside work
     info = {"fuzz_campaign": "atheris/libFuzzer on cryocat.starfileio (structured + raw text)", "fuzz_runs_requested": runs, "fuzz_seed_corpus_files": n_seed}
     try:
         st_ = json.load(open(os.path.join(findings, "stats.json")))
